@@ -280,7 +280,8 @@ Section Guarded.
     intros Hdom HY Hp. destruct (perm_is_pick X X' Hp) as [idx [Hi He]]. exists idx.
     split; [exact Hi|]. split; [exact He|]. subst X'.
     destruct X as [|x0 X0].
-    - apply Permutation_nil in Hi. subst idx. pose proof (guarded_output _ _ HY) as ->. exact HY.
+    - apply Permutation_sym, Permutation_nil in Hi. subst idx.
+      pose proof (guarded_output _ _ HY) as ->. exact HY.
     - apply guarded_selection; try assumption; try discriminate.
       + intro E. subst idx. apply Permutation_nil in Hi. discriminate.
       + apply perm_seq_valid. exact Hi.
@@ -388,10 +389,7 @@ Lemma cells_nonempty (p : panel) : p <> [] -> (forall x, In x p -> tdom x) -> ce
 Proof.
   intros Hne Hd. destruct p as [|i p]; [congruence|].
   assert (Hi : tdom i) by (apply Hd; left; reflexivity). unfold tdom in Hi.
-  destruct i as [|s i]; [congruence|]. intro E.
-  assert (Hin : In (length s) (cell_lengths ((s :: i) :: p))).
-  { apply (in_cell_lengths ((s :: i) :: p) (s :: i) s); left; reflexivity. }
-  rewrite E in Hin. destruct Hin.
+  destruct i as [|s i]; [congruence|]. intro E. unfold cell_lengths in E. cbn in E. discriminate.
 Qed.
 
 Definition same_cell_lengths (x y : inst) : Prop :=
@@ -419,7 +417,8 @@ Proof.
   - apply andb_true_iff in H. destruct H as [H1 H2]. apply andb_true_iff in H2.
     destruct H2 as [H2 H3]. apply Nat.eqb_eq in H2. subst y. f_equal. apply IH.
     apply andb_true_iff. split; assumption.
-  - inversion H; subst. destruct (proj2 (IH b) eq_refl) as [H1 H2]%andb_true_iff.
+  - inversion H; subst. pose proof (proj2 (IH b) eq_refl) as H0.
+    apply andb_true_iff in H0. destruct H0 as [H1 H2].
     rewrite H1, H2, Nat.eqb_refl. reflexivity.
 Qed.
 
@@ -474,6 +473,7 @@ Proof. reflexivity. Qed.
 (* --- the acceptance tests are local ------------------------------------------------------------ *)
 
 Ltac bool_to_prop :=
+  cbn [tguard];
   repeat (rewrite ?negb_true_iff, ?negb_false_iff, ?andb_true_iff, ?andb_false_iff, ?orb_true_iff,
           ?orb_false_iff, ?Nat.ltb_lt, ?Nat.ltb_ge, ?Nat.leb_le, ?Nat.leb_gt, ?Nat.eqb_eq,
           ?Nat.eqb_neq).
@@ -512,10 +512,10 @@ Proof.
       intros i s Hi Hs. apply (H i Hi s Hs Hge).
   - (* tabularize *)
     exists (fun _ => True), (fun x y => shape_of x = shape_of y).
-    intros X _ _. rewrite rectangular_iff. split; [intro H; split; [trivial|exact H]|intros [_ H]; exact H].
+    intros X _ _. cbn [tguard]. rewrite rectangular_iff. split; [intro H; split; [trivial|exact H]|intros [_ H]; exact H].
   - (* column concatenate *)
     exists (fun _ => True), (fun x y => shape_of x = shape_of y).
-    intros X _ _. rewrite rectangular_iff. split; [intro H; split; [trivial|exact H]|intros [_ H]; exact H].
+    intros X _ _. cbn [tguard]. rewrite rectangular_iff. split; [intro H; split; [trivial|exact H]|intros [_ H]; exact H].
   - (* PAA *)
     exists (fun i => m <> 0 /\ m <= first_len [i]), (fun x y => shape_of x = shape_of y).
     intros X Hne _. bool_to_prop. rewrite rectangular_iff.
@@ -543,10 +543,10 @@ Proof.
       repeat split; try assumption. intros x Hx. apply (HP x Hx).
   - (* row transformer, series to series *)
     exists (fun _ => True), same_cell_lengths.
-    intros X _ _. rewrite equal_length_iff. split; [intro H; split; [trivial|exact H]|intros [_ H]; exact H].
+    intros X _ _. cbn [tguard]. rewrite equal_length_iff. split; [intro H; split; [trivial|exact H]|intros [_ H]; exact H].
   - (* row transformer, series to primitives *)
     exists (fun _ => True), same_cell_lengths.
-    intros X _ _. rewrite equal_length_iff. split; [intro H; split; [trivial|exact H]|intros [_ H]; exact H].
+    intros X _ _. cbn [tguard]. rewrite equal_length_iff. split; [intro H; split; [trivial|exact H]|intros [_ H]; exact H].
 Qed.
 
 Lemma closed_form_instancewise t th : instancewise_on tdom (tapply t th) (tfun t th).
@@ -673,8 +673,8 @@ Section Containers.
     intros Hwf Hf.
     destruct (SkV.C15.Main.main_roundtrip_nested_3d n c T x Hwf) as [_ Hrt].
     specialize (Hrt cn k). unfold K.nested_to_3d in Hrt.
-    unfold est_apply, internal, K.check_X. rewrite Hf.
-    destruct to_np; cbn [rows_of K.nested_to_3d]; rewrite Hrt; reflexivity.
+    unfold est_apply, internal, K.check_X, K.nested_to_3d.
+    destruct to_np, to_pd; try discriminate; cbn [andb rows_of]; rewrite Hrt; reflexivity.
   Qed.
 
   (* column labels and cell kind (pd.Series / np.ndarray cells) are not read *)
